@@ -488,9 +488,8 @@ class C01(Property):
         'integer counts / products >= 2**53 lose precision in the real code (H9007199254740993 -> 9007199254740992); theorems are exact; harness compares exactly only below 2**53',
         'non-ASCII digits (accepted by \\d and int()) and non-ASCII whitespace inside the charge number: the model rejects them, Python accepts them; excluded from generation',
         'results are fresh objects (no aliasing between two parses, no effect of mutating a returned dict or of Substance(..., charge=q) on later parses): history cases, oracle only',
-        'uniqueness of the string-level denotation Den (that a text has only one reading) is not proved; accepted_value_sound gives the reading the parser used; the order of the returned keys for non-rendered texts is checked by correspondence and by the independent Python evaluator only',
+        'uniqueness of the string-level denotation Den (that a text has only one reading, den_functional) is not proved - it needs the completeness of the parser w.r.t. a tightened Den (est. 2-3 h); accepted_value_sound gives the reading the parser used; the ORDER of the returned keys is a theorem for rendered well-formed formulas (parse_render_exact) but for other accepted texts (whitespace variants, counted cages, ...) it is checked by correspondence and by the independent Python evaluator only',
         'the exception class of formula_to_composition is compared exactly with the model (no theorem: the class is the model\'s ErrKind by construction); Substance/Species.from_formula only as accept/reject (they evaluate formula_to_latex first: .alpha-Fe gives ValueError there)',
-        'pyInt (model of int() on the charge number): accepting direction proved (charge_number_forms) + alphabet bound; the full iff is not proved',
         'non-default prefixes= / suffixes= and Species.from_formula(phases=...): modelled (formulaToCompositionWith) and compared by correspondence + independent evaluator; parse_render is proved for the default lists only',
         '_get_leading_integer line 353 (raise on two matches of ^\\d+) is dead code: no input reaches it; not modelled',
     )
